@@ -75,6 +75,15 @@ def di_shapes(tier):
         t1 = ctor_op(1, f1, in_code(f0, "r"), "s", lc1, cl1)
         for hm0, hm1 in [("m", "r"), ("m", "v"), ("r", "m"), (None, "m"), ("m", "m")]:
             shapes.append([t0, t1, {"k": "route", "c": handler_id(0, [in_code(f0, hm0), in_code(f1, hm1), "0"])}])
+    # DI-A: cloning policy on the annotation (`#[request_scoped(clone_if_necessary)]`), kept or
+    # overridden (`.never_clone()`) at registration; the value needs a clone in every member
+    for cl0 in (None, "never_clone", "clone_if_necessary"):
+        t0 = {"k": "ctor", "c": "C_T0K__0__C", "lc": "request_scoped"}
+        if cl0:
+            t0["cl"] = cl0
+        for m10, hm0 in [("v", "v"), ("v", "r"), ("r", "v")]:
+            t1 = ctor_op(1, "P", in_code("K", m10), "s", "request_scoped", None)
+            shapes.append([t0, t1, {"k": "route", "c": handler_id(0, [in_code("K", hm0), "PR", "0"])}])
     if tier == "thorough":
         modes = [None, "v", "r"]
         for (f0, cl0), (f1, cl1) in itertools.product(FLAV_CL, [("P", None), ("K", "clone_if_necessary")]):
@@ -117,6 +126,23 @@ def dimw_shapes(tier):
                    {"k": "wrap", "c": mw_id("wrap", 1, False, in_code(f0, wm))},
                    {"k": "post", "c": mw_id("post", 1, False, in_code(f0, qm))},
                    {"k": "route", "c": handler_id(0, [in_code(f0, hm), "0", "0"])}]
+            shapes.append(ops)
+    # DIMW-1: four to five consumers inside ONE stage (no wrapping middleware): pre1, pre2, handler,
+    # post1 [, post2] — move / borrow alternations that the per-stage clone bookkeeping must get right
+    flavs = [("K", "clone_if_necessary"), ("P", None)] if tier == "quick" else FLAV_CL
+    for (f0, cl0) in flavs:
+        t0 = ctor_op(0, f0, "0", "s", "request_scoped", cl0)
+        post2_opts = [None] if tier == "quick" else [None, "r", "v"]
+        for p1, p2, hm, q1, q2 in itertools.product([None, "v", "r"], [None, "v", "r"], ["v", "r"], [None, "v", "r"], post2_opts):
+            if sum(x is not None for x in (p1, p2, hm, q1, q2)) < 3:
+                continue
+            ops = [t0,
+                   {"k": "pre", "c": mw_id("pre", 1, False, in_code(f0, p1))},
+                   {"k": "pre", "c": mw_id("pre", 2, False, in_code(f0, p2))},
+                   {"k": "post", "c": mw_id("post", 1, False, in_code(f0, q1))}]
+            if q2 is not None:
+                ops.append({"k": "post", "c": mw_id("post", 2, False, in_code(f0, q2))})
+            ops.append({"k": "route", "c": handler_id(0, [in_code(f0, hm), "0", "0"])})
             shapes.append(ops)
     if tier == "thorough":
         for (f0, cl0), m10 in itertools.product(FLAV_CL, ["v", "r"]):
@@ -245,6 +271,47 @@ def err_shapes(tier):
                         if n_obs == 2 and n >= 1:
                             shapes.append(base + obs[:1] + mws + obs[1:] + [route])
                         shapes.append(base + obs + mws + [route, {"k": "observer", "c": "OBS3__0"}])
+    # ERR-SHARE: a request-scoped (or transient-fed) value shared between a fallible component, its
+    # error handler and the error observers (the value must be built once per request on every
+    # branch; transient inputs once per injection site)
+    for t0lc, with_t1 in [("request_scoped", False), ("transient", True), ("request_scoped", True)]:
+        for n in range(0, (1 if tier == "quick" else 2) + 1):
+            for word in itertools.product(kinds, repeat=n):
+                for share in ("T0", "T1") if with_t1 else ("T0",):
+                    t0 = ctor_op(0, "P", "0", "s", t0lc, None)
+                    base = [t0]
+                    if with_t1:
+                        base.append(ctor_op(1, "P", "PV" if t0lc == "transient" else "PR", "s", "request_scoped", None))
+                    i0, i1 = ("PR", "0") if share == "T0" else ("0", "PR")
+                    if share == "T1" and not with_t1:
+                        continue
+                    counters = {"pre": 0, "post": 0, "wrap": 0}
+                    mws = []
+                    for k in word:
+                        counters[k] += 1
+                        ehid = f"EH_{ERR_OF[k]}_1__{'PR' if share == 'T0' else '0_PR'}"
+                        mws.append({"k": k, "c": mw_id(k, counters[k], True, i0, i1), "eh": ehid})
+                    hcodes = ["PR", "0", "0"] if share == "T0" else ["0", "PR", "0"]
+                    route = {"k": "route", "c": handler_id(0, hcodes, True), "eh": f"EH_ERRH_1__{'PR' if share == 'T0' else '0_PR'}"}
+                    obs = [{"k": "observer", "c": f"OBS1__{'PR' if share == 'T0' else '0_PR'}"}]
+                    shapes.append(base + obs + mws + [route])
+
+    # ERR-OWN: ownership across control-flow branches (Ok path / Err path of a fallible handler whose
+    # error handler also injects the value)
+    own_flavs = [("K", "clone_if_necessary")] if tier == "quick" else [("K", "clone_if_necessary"), ("P", None), ("Y", None)]
+    for (f0, cl0) in own_flavs:
+        for m10, m20, m21, hm1, hm2, ehm in itertools.product(["v", "r", None], ["v", "r", None], ["r", None], ["r", "v", None], ["v", "r"], [None, "r", "v"]):
+            if m20 is None and m21 is None:
+                continue
+            if hm1 is not None and m10 is None and False:
+                continue
+            t0 = ctor_op(0, f0, "0", "s", "request_scoped", cl0)
+            t1 = ctor_op(1, "P", in_code(f0, m10), "s", "request_scoped", None)
+            t2 = ctor_op(2, "P", f"{in_code(f0, m20)}_{in_code('P', m21)}", "s", "request_scoped", None)
+            route = {"k": "route", "c": handler_id(0, ["0", in_code("P", hm1), in_code("P", hm2)], True),
+                     "eh": f"EH_ERRH_1__{in_code(f0, ehm)}"}
+            shapes.append([t0, t1, t2, route])
+
     # ERR-NEST: error handlers registered at different nesting levels than the failing components
     # (lookup walks from the component's blueprint to its ancestors; a specific handler anywhere on
     # that chain beats any fallback handler; the nearest one of each kind wins)
